@@ -461,7 +461,8 @@ func (g *gen) shapeCase() error {
 				seen = true
 				paired := false
 				for _, y := range st[i+1:] {
-					if strings.HasPrefix(y, "defer ") && strings.Contains(y, "publishing.leave(") {
+					if strings.HasPrefix(y, "defer ") && strings.Contains(y, "publishing.leave(") && !strings.Contains(y, "{") {
+						// a plain deferred call; a deferred closure may leave conditionally (mutation R4-X2)
 						paired = true
 						break
 					}
